@@ -144,12 +144,26 @@ class Execution:
         return n
 
 
+import dis as _dis
+_CALL_OPS = frozenset(_dis.opmap[n] for n in ('CALL', 'CALL_FUNCTION_EX',
+                                              'CALL_KW', 'CALL_FUNCTION',
+                                              'CALL_METHOD',
+                                              'CALL_FUNCTION_KW')
+                      if n in _dis.opmap)
+
+
 class Runner:
     """Runs executions of `bodies` under given choice prefixes.  The worker
     threads are created once and reused for every execution."""
 
-    def __init__(self, bodies, setup=None, teardown=None, max_points=400000):
+    def __init__(self, bodies, setup=None, teardown=None, max_points=400000,
+                 fine=False):
         self.bodies = bodies
+        # fine: besides every source line, the instruction after every CALL
+        # inside a line is a scheduling point (where CPython looks at the
+        # eval breaker and may hand the GIL over: between next(...) and the
+        # del in `del d[next(iter(d))]`)
+        self.fine = fine
         self.setup, self.teardown = setup, teardown
         self.dir = _pamqp_dir()
         self.max_points = max_points
@@ -230,14 +244,34 @@ class Runner:
             del self.blocked[t]
 
     def _worker(self, tid):
+        fine = self.fine
+        last = {}            # id(frame) -> (offset of the previous opcode,
+        #                       a 'line' event came since)
+
         def local(frame, event, arg):
             if event == 'line':
                 self._point(tid)
+                if fine:
+                    prev = last.get(id(frame))
+                    last[id(frame)] = (prev[0] if prev else None, True)
+            elif event == 'opcode':
+                key = id(frame)
+                prev = last.get(key)
+                if prev is not None and prev[0] is not None and \
+                        not prev[1] and \
+                        frame.f_code.co_code[prev[0]] in _CALL_OPS:
+                    self._point(tid)
+                last[key] = (frame.f_lasti, False)
+            elif event == 'return' and fine:
+                last.pop(id(frame), None)
             return local
 
         def glob(frame, event, arg):
             if event == 'call' and self._is_lib(frame.f_code.co_filename):
-                return local
+                if fine:
+                    frame.f_trace_opcodes = True
+                    sys.settrace(glob)      # 3.12: re-arm, or no opcode
+                return local                # events are delivered
             return None
 
         _TLS.tid, _TLS.runner = tid, self
